@@ -93,6 +93,17 @@ theorem pump_immortal (is : List In) (h : ∀ i ∈ is, i ∈ allIn) : (run init
 theorem reset_in_connect_recovers :
     connected (run (run init [.pumpTurn true, .userReset true]) healthySeq) = true := by decide +kernel
 
+/-- **a reset that lands while a discovery is in flight** (the pump's own locate or the one inside `async_connect`: the
+narrow window of a second Reconnect press) **is recovered from**, from every coherent record: the discovery's end still
+leaves the manager where the pump goes on to connect -/
+theorem reset_in_locate_recovers : ∀ s ∈ allR, Coherent s = true → s.pump = true →
+    connected (run (step s .resetInLocate) healthySeq) = true := by decide +kernel
+
+/-- why the shape of the LOCATING_FINISHED branch is an obligation: were it guarded by the state LOCATING_STARTED sets, a reset
+in that window would leave IDLE with descriptors - a record neither guard of the pump acts on -/
+example : let s : R := { (resetR { init with st := stateOnLocatingStarted }) with descriptors := true }
+    s.st = "IDLE" ∧ Stuck s = true := by decide +kernel
+
 /-- **an unreachable spa is reported**: from CONNECTED, a ping that stays unanswered beyond the not-responding timeout
 takes the manager out of CONNECTED -/
 theorem unreachable_reported : ∀ s ∈ allR, Coherent s = true → connected s = true → connected (step s (.ping false)) = false := by
